@@ -201,9 +201,10 @@ def ble_value_formats(out):
     """C14: the HAP-BLE characteristic signature route - per presentation-format code the `struct` format the library uses to
     unpack a value / a step (`_unpack_value`), to pack a value (`_pack_value`) and to unpack the valid range (`min_max_value`)"""
     t = parse("controller/ble/structs.py")
+    tc = parse("controller/coap/structs.py")
 
-    def chain(fname, call):
-        f = func(t, fname, cls="Characteristic")
+    def chain(fname, call, tree=None, cls="Characteristic"):
+        f = func(tree or t, fname, cls=cls)
         rows = []
         for st in f.body:
             if not (isinstance(st, ast.If) and isinstance(st.test, ast.Compare) and len(st.test.ops) == 1 and isinstance(st.test.ops[0], ast.Eq)
@@ -231,7 +232,9 @@ def ble_value_formats(out):
         if not rows:
             raise Shape(f"{fname}: no format rows")
         return rows
-    out["BleMeta"] = {"unpack": chain("_unpack_value", "unpack"), "pack": chain("_pack_value", "pack"), "range": chain("min_max_value", "unpack")}
+    out["BleMeta"] = {"unpack": chain("_unpack_value", "unpack"), "pack": chain("_pack_value", "pack"), "range": chain("min_max_value", "unpack"),
+                      "coapUnpack": chain("_unpack_value", "unpack", tc, "Pdu09Characteristic"), "coapPack": chain("_pack_value", "pack", tc, "Pdu09Characteristic"),
+                      "coapRange": chain("min_max_value", "unpack", tc, "Pdu09Characteristic")}
 
 
 @extractor
@@ -983,6 +986,10 @@ def emit_blemeta(out, files):
          f"def unpackRows : List (Nat × String × String) := {rows(d['unpack'])}",
          f"def packRows : List (Nat × String × String) := {rows(d['pack'])}",
          f"def rangeRows : List (Nat × String × String) := {rows(d['range'])}",
+         "/-- the same chains of `Pdu09Characteristic` in controller/coap/structs.py (the CoAP accessory database) -/",
+         f"def coapUnpackRows : List (Nat × String × String) := {rows(d['coapUnpack'])}",
+         f"def coapPackRows : List (Nat × String × String) := {rows(d['coapPack'])}",
+         f"def coapRangeRows : List (Nat × String × String) := {rows(d['coapRange'])}",
          "end HapVerif.Gen.BleMeta"]
     files["BleMeta.lean"] = "\n".join(L) + "\n"
 
